@@ -11,6 +11,7 @@ import (
 	"gitee.com/Trisia/gotlcp/dtlcp"
 	"gitee.com/Trisia/gotlcp/tlcp"
 	"gitee.com/Trisia/gotlcp/vs"
+	"github.com/emmansun/gmsm/sm2"
 	x509 "github.com/emmansun/gmsm/smx509"
 
 	"verifsim/fix"
@@ -99,7 +100,9 @@ func pool(names []string) *x509.CertPool {
 func (e *EPConf) key(env *Env, name string) crypto.PrivateKey {
 	k := fix.Key(name)
 	if e.WrapKeys {
-		return wrapKey(env.KeyOps, k)
+		if sk, ok := k.(*sm2.PrivateKey); ok {
+			return WrapSM2(env.KeyOps, sk, env.W.Rand("eph/"+name))
+		}
 	}
 	return k
 }
@@ -172,7 +175,9 @@ func (e *EPConf) BuildDTLCP(env *Env, name string) *dtlcp.Config {
 		c = c.Clone()
 	case 2:
 		inner := c.Clone()
-		outer := &dtlcp.Config{Rand: c.Rand, Time: FixedTime, NewTimer: c.NewTimer, GetConfigForClient: func(*dtlcp.ClientHelloInfo) (*dtlcp.Config, error) { return inner, nil }}
+		outer := c.Clone()
+		outer.Certificates, outer.SessionCache = nil, nil
+		outer.GetConfigForClient = func(*dtlcp.ClientHelloInfo) (*dtlcp.Config, error) { return inner, nil }
 		c = outer
 	}
 	return c
